@@ -8,8 +8,12 @@ Proved (all inputs):
   * adjacency is purely positional: Parser.is_adjacent(prev, curr) <=> prev.end == curr.start (E1), and WS tokens are dropped by
     Tokenizer.is_blank outside subprocess macros (E1), so two pieces are adjacent iff no whitespace was between them (given C08);
   * (E3) every spelling of the shell-word alphabet is made of NAME / NUMBER / operator characters: no ERRORTOKEN.
-Not proved: the grouping loop Parser._proc_args / _append_node_or_token (generator over mixed token/node lists: outside the
-executor's subset) -- bounded stand-in: command lines of <= 3 words from a 36-word pool x spacing x gluing vs an independent
+  * the grouping loop itself (E1, real bodies of Parser._proc_args, proc_args and _append_node_or_token over a list of unknown length
+    of tokens / nodes): the number of arguments yielded is the number of maximal runs of adjacent pieces (spec functions runs /
+    run_begin, defined by recursion over the list), argument k spans from the start of its run's first piece to the end of its last
+    one, a run ends exactly at a break or at the end of the list; merging two plain words appends the text; handle_proc / proc_inject
+    pass the grouped list on unchanged to the call of the table's method.
+Bounded stand-in: command lines of <= 3 words from a 36-word pool x spacing x gluing vs an independent
 whitespace splitter.
 """
 from __future__ import annotations
@@ -171,7 +175,7 @@ def standin(rep: Report):
 def run(rep: Report):
     rep.trust("CPython ast", "engine/pegir", "engine/pyvc")
     rep.assume("tokens tile the source (C08), so equal end/start coordinates mean no character in between",
-               "the grouping loop _proc_args/_append_node_or_token is NOT under contract (bounded stand-in only)",
+               "pieces that are not tokens are modelled by their class (Constant / Starred / Tuple / other node) and positions only",
                "Python reserved words as command words are outside the property's domain")
     e1common.file_into(rep, "C06", rep.tier)
     table_obligations(rep)
